@@ -190,7 +190,10 @@ func WaitOn(kind, arg int) {
 	if s == nil {
 		return
 	}
-	if s.nBlocked != 0 && !s.stopped {
+	if s.nBlocked != 0 {
+		// (also during tear-down: yield points no longer park then, but waits
+		// do, and a task that was blocked and has been woken must not take
+		// itself for the running one)
 		g := curGoid()
 		if !s.rejoin(g, -3) && (s.inSched || s.cur < 0 || g != s.tasks[s.cur].goid) {
 			return
@@ -356,6 +359,14 @@ func rawReadTimeout(fd int, ms int) (byte, bool) {
 //
 //go:norace
 func (s *Sched) abandon(running int) {
+	if os.Getenv("VERIFSIM_DUMP") != "" {
+		fmt.Fprintf(os.Stderr, "simhook: abandoning the schedule (running=%d, blocked=%d)\n", running, s.nBlocked)
+		for i, t := range s.tasks {
+			fmt.Fprintf(os.Stderr, "  task %d goid=%d done=%v parked=%v blocked=%v wait=%d/%d last=%d\n", i, t.goid, t.done, t.parked, t.blocked, t.waitKind, t.waitArg, t.LastSite)
+		}
+		buf := make([]byte, 1<<20)
+		os.Stderr.Write(buf[:runtime.Stack(buf, true)])
+	}
 	s.Abandoned = true
 	s.stopped = true
 	alive := 0
@@ -372,6 +383,10 @@ func (s *Sched) abandon(running int) {
 		b, _, ok := rawRead2Timeout(s.ctlR, 120000)
 		if !ok {
 			fmt.Fprintln(os.Stderr, "simhook: scheduler watchdog: tasks did not finish after the schedule was abandoned")
+			if os.Getenv("VERIFSIM_DUMP") != "" {
+				buf := make([]byte, 1<<20)
+				os.Stderr.Write(buf[:runtime.Stack(buf, true)])
+			}
 			os.Exit(2)
 		}
 		if b == 'd' {
